@@ -27,6 +27,7 @@ def sealed_world(rnd, nested_p=0.4, multi_gen_p=0.4, patterns_p=0.25):
         rnd.shuffle(cands)
         for d in cands[: rnd.randint(1, 2)]:
             ops.append({"op": "create", "at": d, "h": gen.fmt_subset(rnd, (1, 2)), "now": now()})
+            fs.hist.add(d)
             if rnd.random() < 0.6:
                 # a sibling whose name merely STARTS like the nested history's folder belongs to the parent
                 sib = d + rnd.choice(["_proxy", "2", " copy"])
@@ -104,7 +105,8 @@ def mutations(rnd, fs, pats, kmax=3, kinds=("alter", "remove", "add", "touch", "
         elif k == "touch" and files:
             ops.append({"op": "touch", "path": rnd.choice(files), "mtime": 1500000000 + rnd.randint(0, 10**8)})
         elif k == "rmdir":
-            empties = [d for d in sorted(fs.dirs) if d and not any(x.startswith(d + "/") for x in list(fs.files) + list(fs.dirs))]
+            # (the root folder of a nested history is never "empty": it holds that history)
+            empties = [d for d in sorted(fs.dirs) if d and d not in fs.hist and not any(x.startswith(d + "/") for x in list(fs.files) + list(fs.dirs))]
             if empties:
                 d = rnd.choice(empties)
                 fs.dirs.discard(d)
